@@ -57,6 +57,8 @@ func main() {
 	jobs := flag.Int("jobs", 16, "parallel solver jobs")
 	overlayF := flag.String("overlay", "", "JSON file mapping absolute file path -> replacement file path")
 	dumpOnly := flag.Bool("nosolve", false, "generate only")
+	unroll := flag.Int("unroll", 0, "concretisation mode: unroll loops up to N back edges instead of cutting them (finds inputs, proves nothing)")
+	target := flag.String("target", "", "concretisation mode: only obligations whose clause contains this text and (if given after '@') whose position matches")
 	verbose := flag.Bool("v", false, "verbose")
 	flag.Parse()
 
@@ -114,7 +116,7 @@ func main() {
 		if onlyRe != nil && !onlyRe.MatchString(rel) {
 			continue
 		}
-		fr := verifyFunction(w, fn)
+		fr := verifyFunction(w, fn, *unroll)
 		res.Functions = append(res.Functions, fr)
 		if *verbose {
 			fmt.Fprintf(os.Stderr, "gen %s: %d obligations, %d abstractions, err=%q\n", rel, len(fr.Obligations), len(fr.Abstractions), fr.Error)
@@ -126,19 +128,60 @@ func main() {
 		if g == nil {
 			continue
 		}
+		var extraDecl []string
+		if *unroll > 0 {
+			n0 := len(g.lines)
+			g.inputTerms()
+			extraDecl = append(extraDecl, g.lines[n0:]...)
+		}
 		for i, o := range fr.Obligations {
 			if o.Trivial {
 				continue
 			}
+			if *unroll > 0 {
+				if o.Vacuity || !matchTarget(o, *target) {
+					o.Verdict = "skipped"
+					continue
+				}
+			}
 			var sb strings.Builder
 			sb.WriteString("(set-option :produce-models true)\n(set-logic ALL)\n")
 			for _, l := range g.lines[:o.prefix] {
+				if *unroll > 0 {
+					l = instantiateLine(l)
+				}
 				sb.WriteString(l)
 				sb.WriteByte('\n')
 			}
-			sb.WriteString("(assert " + o.pc + ")\n")
-			sb.WriteString("(assert (not " + o.goal + "))\n")
+			for _, l := range extraDecl {
+				sb.WriteString(l)
+				sb.WriteByte('\n')
+			}
+			if *unroll > 0 {
+				// prefer small inputs: slices and strings of at most modelElems elements
+				for _, it := range g.inputTerms() {
+					if strings.HasSuffix(it.path, ".len") {
+						sb.WriteString(fmt.Sprintf("(assert (<= %s %d))\n", it.term, modelElems))
+					}
+					if strings.HasSuffix(it.path, ".off") {
+						sb.WriteString(fmt.Sprintf("(assert (= %s 0))\n", it.term))
+					}
+				}
+			}
+			if *unroll > 0 {
+				sb.WriteString(instantiateLine("(assert "+o.pc+")") + "\n")
+				sb.WriteString(instantiateLine("(assert (not "+o.goal+"))") + "\n")
+			} else {
+				sb.WriteString("(assert " + o.pc + ")\n")
+				sb.WriteString("(assert (not " + o.goal + "))\n")
+			}
 			sb.WriteString("(check-sat)\n")
+			if *unroll > 0 {
+				for _, gv := range g.inputTerms() {
+					sb.WriteString("(get-value (" + gv.term + "))\n")
+				}
+				o.inputs = g.inputTerms()
+			}
 			fname := filepath.Join(dir, fmt.Sprintf("%s_%03d.smt2", sanitize(fr.Pkg+"_"+fr.Name), i))
 			if err := os.WriteFile(fname, []byte(sb.String()), 0o644); err != nil {
 				fatal(err)
@@ -199,10 +242,11 @@ func main() {
 
 var frGen = map[*FuncResult]*Gen{}
 
-func verifyFunction(w *World, fn *ssa.Function) *FuncResult {
+func verifyFunction(w *World, fn *ssa.Function, unroll int) *FuncResult {
 	t0 := time.Now()
 	spec := w.specFor(fn)
 	g := &Gen{W: w, fn: fn, rootFn: fn, spec: spec, fnIDs: map[*ssa.Function]int{}, typeIDs: map[string]int{}, heapSorts: map[string]string{}}
+	g.unroll = unroll
 	g.reset()
 	mode := "int"
 	if spec != nil && spec.Options["mode"] == "bv64" {
@@ -362,6 +406,9 @@ func solveOne(o *Obligation, file string, solvers []string, timeout float64) {
 			o.Verdict, o.Solver, o.Ms = a.verdict, a.solver, a.ms
 			if a.verdict == "sat" {
 				o.Output = truncate(a.out, 4000)
+				if len(o.inputs) > 0 {
+					o.Inputs = parseGetValues(a.out, o.inputs)
+				}
 			}
 			return
 		}
@@ -393,4 +440,85 @@ func ms(d time.Duration) float64 { return float64(d.Microseconds()) / 1000 }
 func fatal(err error) {
 	fmt.Fprintln(os.Stderr, "govc:", err)
 	os.Exit(2)
+}
+
+func matchTarget(o *Obligation, target string) bool {
+	if target == "" {
+		return true
+	}
+	clause, pos := target, ""
+	if i := strings.LastIndex(target, "@"); i >= 0 {
+		clause, pos = target[:i], target[i+1:]
+	}
+	if clause != "" && !strings.Contains(o.Clause, clause) {
+		return false
+	}
+	if pos != "" && o.Pos != pos {
+		return false
+	}
+	return true
+}
+
+// parseGetValues reads the answers of the (get-value (t)) commands, which come in the order of inputs.
+func parseGetValues(out string, inputs []inputTerm) map[string]string {
+	res := map[string]string{}
+	// join everything after the first line and split on top-level "((" ... "))" groups
+	i := strings.Index(out, "\n")
+	if i < 0 {
+		return res
+	}
+	rest := out[i+1:]
+	var groups []string
+	depth := 0
+	start := -1
+	for k, c := range rest {
+		switch c {
+		case '(':
+			if depth == 0 {
+				start = k
+			}
+			depth++
+		case ')':
+			depth--
+			if depth == 0 && start >= 0 {
+				groups = append(groups, rest[start:k+1])
+				start = -1
+			}
+		}
+	}
+	for k, gtxt := range groups {
+		if k >= len(inputs) {
+			break
+		}
+		// ((term value)) : the value is the last top-level element inside the inner parentheses
+		inner := strings.TrimSpace(gtxt)
+		inner = strings.TrimSuffix(strings.TrimPrefix(inner, "(("), "))")
+		val := lastSexp(inner)
+		val = strings.ReplaceAll(val, "(- ", "-")
+		val = strings.TrimSuffix(val, ")")
+		res[inputs[k].path] = strings.TrimSpace(val)
+	}
+	return res
+}
+
+func lastSexp(s string) string {
+	s = strings.TrimSpace(s)
+	if strings.HasSuffix(s, ")") {
+		depth := 0
+		for i := len(s) - 1; i >= 0; i-- {
+			switch s[i] {
+			case ')':
+				depth++
+			case '(':
+				depth--
+				if depth == 0 {
+					return s[i:]
+				}
+			}
+		}
+	}
+	if i := strings.LastIndexAny(s, " \t\n"); i >= 0 {
+		return s[i+1:]
+	}
+	return s
 }
